@@ -64,7 +64,7 @@ def reencoding(ctx, job):
         dd = os.path.dirname(dd)
         wp = os.path.join(dd, "m.wasm")
         open(wp, "wb").write(enc)
-        r = subprocess.run([ctx.w2c2(), wp, os.path.join(dd, "m.c")], capture_output=True, cwd=dd, timeout=60)
+        r = subprocess.run([ctx.w2c2(), wp, os.path.join(dd, "m.c")], capture_output=True, cwd=dd, timeout=60, env=dict(os.environ, MALLOC_PERTURB_="165"))   # fresh heap memory is not zero: "absent optional sections mean empty, never garbage"
         ok = r.returncode == 0 and all(os.path.exists(os.path.join(dd, f)) and defs(open(os.path.join(dd, f), "rb").read()) == ref[f] for f in ("m.c", "m.h"))
         facts.append(("re-encoding '%s' (%s) is accepted and translates to the same set of byte-identical C definitions in m.c / m.h" % (name, ", ".join("%s=%s" % (k, (x if not isinstance(x, (bytes, str)) or len(x) < 12 else "...")) for k, x in v.items())),
                       ok, "rc=%s %s module_hex=%s" % (r.returncode, r.stderr.decode(errors="replace")[-200:], enc.hex()[:600])))
